@@ -175,6 +175,9 @@ func (d *dumper) tid(t types.Type) string {
 	case *types.Basic:
 		jt.Kind = "basic"
 		jt.Name = tt.Name()
+		if int(tt.Kind()) < len(types.Typ) && types.Typ[tt.Kind()] != nil {
+			jt.Name = types.Typ[tt.Kind()].Name() // byte -> uint8, rune -> int32
+		}
 		switch tt.Kind() {
 		case types.Int8:
 			jt.Bits, jt.Signed = 8, true
